@@ -48,6 +48,35 @@ def l1(prog, ctx):
             idx = st.children[0].strip().children[1].const_value()
             slots[idx] = (st, rhs)
     cnt = [st for lhs, rhs, st, kind in query.stores(f) if render(lhs) == "(*key_file)->parse_dirs_count" and rhs is not None]
+    if cnt and cnt[0].children[1].const_value() == 3 and not slots:
+        # the list is built in a local array by one builder function and then handed to the object
+        fo = getattr(f, "original", f)
+        pubs = [rhs for lhs, rhs, st, kind in query.stores(fo) if render(lhs) == "(*key_file)->parse_dirs" and rhs is not None and rhs.strip().k == "DeclRefExpr"]
+        if pubs:
+            arr = render(pubs[0])
+            built = {}
+            for lhs, rhs, st, kind in query.stores(fo):
+                l0 = lhs.strip()
+                if l0.k == "ArraySubscriptExpr" and render(l0.children[0]) == arr and rhs is not None and rhs.strip().k == "CallExpr":
+                    built[l0.children[1].const_value()] = (st, rhs.strip())
+            if sorted(k for k in built if k is not None) == [0, 1, 2] and len(set(built[k][1].j.get("callee") for k in (0, 1, 2))) == 1:
+                args = {k: built[k][1].call_args() for k in (0, 1, 2)}
+                n_args = len(args[0])
+                differ = [i for i in range(n_args) if len(set(render(args[k][i]) for k in (0, 1, 2))) > 1] if all(len(args[k]) == n_args for k in (0, 1, 2)) else None
+                okc, cut = cfg.all_paths_cut(cfg.block_of(cnt[0]), lambda lit, b, i: lit is not None and lit.kind == "truth" and not lit.pol and
+                                             lit.atom == "(*key_file)->parse_dirs_count")
+                if differ is not None and len(differ) == 1:
+                    d0 = differ[0]
+                    got = [render(args[0][d0]), args[1][d0].string_value(), args[2][d0].string_value()]
+                    if got == ["usr_subdir", "/run", "/etc"] and okc and cut:
+                        ctx.ok("L1", "three default layers", cnt[0].where, "%s[0..2] = %s(.., usr_subdir | \"/run\" | \"/etc\", ..) with otherwise equal arguments, "
+                               "behind parse_dirs_count == 0" % (arr, built[0][1].j.get("callee")))
+                        return
+                    ctx.fail("L1", "three default layers", built[0][0].where, "the three layers are built from %s (expected usr_subdir, \"/run\", \"/etc\")%s" % (
+                        got, "" if okc and cut else "; not behind parse_dirs_count == 0"), key="layers-count")
+                    return
+        ctx.inconclusive("L1", "three default layers", cnt[0].where, "the default layer list is built in a form not understood")
+        return
     if not cnt or cnt[0].children[1].const_value() != 3 or sorted(k for k in slots if k is not None) != [0, 1, 2]:
         ctx.fail("L1", "three default layers", (cnt[0] if cnt else f).where, "count %s, slots %s" % ([render(c.children[1]) for c in cnt], sorted(slots)), key="layers-count")
         return
@@ -276,7 +305,7 @@ def l2_l5(prog, ctx):
     for r in dotted:
         v = r.strip().j["name"]
         dots = [st for lhs, rhs, st, kind in query.stores(f) if rhs is not None and rhs.const_value() == ord(".") and render(lhs) in ("%s[0]" % v, "*%s" % v)]
-        copies = [c for c in f.calls(("strcpy", "stpcpy")) if render(c.call_args()[0]) == "%s + 1" % v and render(c.call_args()[1]) == "config_suffix"]
+        copies = [c for c in f.calls(("strcpy", "stpcpy", "memcpy", "memmove", "mempcpy")) if render(c.call_args()[0]) == "%s + 1" % v and render(c.call_args()[1]) == "config_suffix"]
         okd = bool(dots) and bool(copies)
     others = [v for v in vals if v not in ('""', "config_suffix") and not any(render(r) == v for r in dotted)]
     if '""' in vals and okp and okd and not others:
@@ -816,6 +845,19 @@ def l18_l19(prog, ctx):
                 # a branch in front of the read: its other side must not skip the read for an entry that has the suffix
                 skip = cfg.reachable(s2, avoid_blocks=[gb])
                 if hb in skip and gb not in cfg.reachable(s2, avoid_blocks=[hb]):
+                    # ... on a CONSISTENT path: `if (error == ECONF_SUCCESS) read..; if (!error) next round else return error` does not
+                    init9 = {lit.atom: lit.pol}
+                    if lit.kind == "eq":
+                        for x9, y9 in ((lit.lhs, lit.rhs), (lit.rhs, lit.lhs)):
+                            if x9.strip().k == "DeclRefExpr" and y9.const_value() == 0:
+                                init9[render(x9)] = not lit.pol
+                                if lit.pol:
+                                    init9["=" + render(x9)] = 0
+                    elif lit.kind == "truth" and lit.node.k == "DeclRefExpr" and not lit.pol:
+                        init9["=" + lit.atom] = 0
+                    succ9 = {(bb, ii): ss for (bb, ii, ss) in cfg.edges()}
+                    if cfg.feasible_reach(hb, lambda l9, bb, ii: succ9.get((bb, ii)) == gb, lambda a9: True, start=s2, init_facts=init9) is None:
+                        continue
                     mentions_suffix = "config_suffix" in lit.atom or "suffix" in lit.atom or "d_name" in lit.atom and ("strlen" in lit.atom or "strncmp" in lit.atom or "strcmp" in lit.atom)
                     resolved = _resolve_len_names(f, lit)
                     alloc_fail = lit.kind == "truth" and any(x.k == "CallExpr" and x.j.get("callee") in ("econf_newKeyFile_with_options", "malloc", "calloc", "combine_strings") for x in lit.node.walk())
